@@ -118,3 +118,24 @@ def census(recs):
             if k in c:
                 c[k] += 1
     return c
+
+
+def replay_known_findings(pid, cfg, d, builds):
+    """Every open known finding of `pid` whose witness is a .sam program is replayed; a KNOWN-FINDING line is
+    printed while the witness still violates the property (it never hides any other program)."""
+    for k in known_findings(pid):
+        w = k.get("witness", "")
+        if not w.endswith(".sam"):
+            continue
+        path = os.path.join(VERIF, w)
+        if not os.path.exists(path):
+            continue
+        prog = {"origin": "witness:" + w, "entry": "Main", "sources": {"Main": open(path).read()}}
+        recs = run_programs(d, "witness", [prog], builds, jobs=1)
+        tr = os.path.join(d, "obs-witness.ndjson")
+        write_ndjson(tr, [slim(r) for r in recs])
+        v = tlc("Observations", cfg, env={"TRACE": tr}, deque=True, tag=f"{pid}obs-witness", timeout=600)
+        if v.violated:
+            report_known(pid, f"{k['what']} [witness {w} still fails]")
+        else:
+            log(f"[{pid}] known finding '{k.get('region')}' no longer reproduces on its witness {w}")
